@@ -11,7 +11,10 @@ from sa.intervals import World
 from sa.load import AnalysisError, Func, Repo, body_nodes, unparse
 from sa.report import Check, Site
 
+from sa.pathsum import Summary
+
 from .c03 import argmap, calls, expect
+from .util import args_of, eq_branches, ev_args, recv_of
 
 
 def run(repo: Repo, chk: Check) -> None:
@@ -34,32 +37,28 @@ def primitives(repo: Repo, chk: Check) -> None:
     cd = repo.func("_crypto.content_decrypt")
     kd = repo.func("_crypto.cek_decrypt")
     chk.analysed(cd, kd)
-    rd = ReachingDefs(cd)
-    dec = [n for n in body_nodes(cd.node) if isinstance(n, ast.Call) and isinstance(n.func, ast.Attribute) and n.func.attr == "decrypt"]
-    if len(dec) != 1:
-        chk.ob("O1", Site.of(cd, construct="AESGCM.decrypt call"), False, f"content_decrypt has {len(dec)} decrypt calls: there must be exactly one verified decryption")
-        return
-    d = dec[0]
-    ciph = rd.single_def(unparse(d.func.value), d) if isinstance(d.func.value, ast.Name) else None  # type: ignore[attr-defined]
-    okc = ciph is not None and ciph.value is not None and unparse(ciph.value) == f"AESGCM({cd.params[2]})"
-    chk.ob("O1", Site.of(cd, d), okc, "cipher = AESGCM(cek)" if okc else "the decrypting object is not AESGCM(<cek parameter>)")
-    a = [unparse(x) for x in d.args]
-    oka = len(a) == 3 and a[1] == cd.params[3] and a[2] == "None"
-    chk.ob("O1", Site.of(cd, d), oka, "the whole value (ciphertext || tag) is verified and decrypted, no associated data" if oka else f"decrypt arguments are {a}: the data must be the unmodified '{cd.params[3]}' parameter")
-    iv = rd.single_def(a[0], d) if len(a) == 3 else None
-    okn = iv is not None and iv.value is not None and unparse(iv.value) == "reader.read_octet_string()"
-    rdr = rd.single_def("reader", d)
-    okn = okn and rdr is not None and rdr.value is not None and unparse(rdr.value) == f"ASN1Reader({cd.params[1]}).read_sequence()"
-    chk.ob("O4", Site.of(cd, d), bool(okn), "nonce = first OCTET STRING of the blob's GCM parameters" if okn else "the nonce is not read from the parameters handed in")
-    # every return on the GCM branch is that call's result
-    for r in [n for n in body_nodes(cd.node) if isinstance(n, ast.Return)]:
-        ok = r.value is d
-        chk.ob("O3", Site.of(cd, r), ok, "returns the verified plaintext" if ok else f"content_decrypt returns '{unparse(r.value)[:60]}', which is not the result of the single AESGCM.decrypt call: plaintext can be produced without the tag being checked")
-    g = build(cd.node)
-    nid = rd.node_of(d)
-    gs = g.guards_of(nid) if nid is not None else []
-    okb = any(isinstance(c, ast.Compare) and unparse(c) == f"{cd.params[0]} == AlgorithmOID.AES256_GCM" and pol for c, pol in gs)
-    chk.ob("O1", Site.of(cd, construct="algorithm dispatch"), okb, "only under the AES256-GCM OID")
+    summ = Summary(cd, ["algorithm", "parameters", "cek", "value"])
+    br = eq_branches(summ, "algorithm")
+    okb = set(br) == {"AlgorithmOID.AES256_GCM"}
+    chk.ob("O1", Site.of(cd, construct="algorithm dispatch"), okb, "only under the AES256-GCM OID" if okb else f"plaintext is returned on paths guarded by {sorted(br)}")
+    ndec = 0
+    for ps in summ.returning():
+        dec = ps.calls("decrypt")
+        if len(dec) != 1:
+            chk.ob("O1", Site.of(cd, ps.exit_node, None if ps.exit_node is not None else "AESGCM.decrypt call"), False, f"content_decrypt has {len(dec)} decrypt calls on a returning path: there must be exactly one verified decryption")
+            continue
+        ndec += 1
+        d = t.cast(ast.Call, dec[0].tree)
+        okc = ps.text(recv_of(d)) == "AESGCM(cek)"
+        chk.ob("O1", Site.of(cd, dec[0].node), okc, "cipher = AESGCM(cek)" if okc else f"the decrypting object is {ps.text(recv_of(d))}, not AESGCM(<cek parameter>)")
+        a = [ps.text(x) for x in d.args] + [f"{k.arg}={ps.text(k.value)}" for k in d.keywords]
+        oka = len(a) == 3 and a[1] == "value" and a[2] == "None"
+        chk.ob("O1", Site.of(cd, dec[0].node), oka, "the whole value (ciphertext || tag) is verified and decrypted, no associated data" if oka else f"decrypt arguments are {a}: the data must be the unmodified 'value' parameter")
+        okn = len(a) == 3 and a[0] == "ASN1Reader(parameters).read_sequence().read_octet_string()"
+        chk.ob("O4", Site.of(cd, dec[0].node), bool(okn), "nonce = first OCTET STRING of the blob's GCM parameters" if okn else f"the nonce is {a[0] if a else '?'}, not read from the parameters handed in")
+        ok = ps.key(ps.value) == ps.key(d)
+        chk.ob("O3", Site.of(cd, ps.exit_node, None if ps.exit_node is not None else "return"), ok, "returns the verified plaintext" if ok else f"content_decrypt returns '{ps.text(ps.value)[:60]}', which is not the result of the single AESGCM.decrypt call: plaintext can be produced without the tag being checked")
+    chk.ob("O1", Site.of(cd, construct="AESGCM.decrypt call"), ndec >= 1, f"{ndec} returning path(s) through the verified decryption")
     # other ciphers anywhere in _crypto's decrypt functions
     for f in (cd, kd):
         for n in body_nodes(f.node):
@@ -67,81 +66,102 @@ def primitives(repo: Repo, chk: Check) -> None:
                 dn = repo.dotted(n.func, f.mod)
                 if any(x in dn for x in ("Cipher", "modes.", "algorithms.", ".update", ".finalize", "decryptor")):
                     chk.ob("O1", Site.of(f, n), False, f"{dn}: a second, hand-rolled decryption path next to the one-shot AEAD call (streaming APIs release plaintext before the tag is verified)")
-    un = [n for n in body_nodes(kd.node) if isinstance(n, ast.Call) and repo.dotted(n.func, kd.mod).endswith("keywrap.aes_key_unwrap")]
-    oku = len(un) == 1 and [unparse(x) for x in un[0].args] == [kd.params[2], kd.params[3]]
-    chk.ob("O1", Site.of(kd, un[0] if un else None, None if un else "aes_key_unwrap"), oku, "CEK = aes_key_unwrap(kek, whole wrapped key)" if oku else "cek_decrypt does not unwrap the whole value with the KEK")
-    for r in [n for n in body_nodes(kd.node) if isinstance(n, ast.Return)]:
-        chk.ob("O3", Site.of(kd, r), bool(un) and r.value is un[0], "returns the unwrapped key")
+    sk = Summary(kd, ["algorithm", "parameters", "kek", "value"])
+    for ps in sk.returning():
+        un = ps.calls("aes_key_unwrap")
+        oku = len(un) == 1 and [ps.text(x) for x in t.cast(ast.Call, un[0].tree).args] == ["kek", "value"]
+        chk.ob("O1", Site.of(kd, un[0].node if un else None, None if un else "aes_key_unwrap"), oku, "CEK = aes_key_unwrap(kek, whole wrapped key)" if oku else "cek_decrypt does not unwrap the whole value with the KEK")
+        chk.ob("O3", Site.of(kd, ps.exit_node, None if ps.exit_node is not None else "return"), bool(un) and ps.key(ps.value) == ps.key(un[0].tree), "returns the unwrapped key")
     # _decrypt_blob wiring
     db = repo.func("_client._decrypt_blob")
     chk.analysed(db)
-    c1, c2 = calls(db, "cek_decrypt"), calls(db, "content_decrypt")
-    if len(c1) != 1 or len(c2) != 1:
-        raise AnalysisError("_decrypt_blob: call sites changed")
-    expect(chk, "O1", db, c1[0], argmap(repo, c1[0], kd), {"algorithm": "blob.enc_cek_algorithm", "parameters": "blob.enc_cek_parameters", "kek": "kek", "value": "blob.enc_cek"}, "unwrap of the blob's wrapped CEK")
-    expect(chk, "O1", db, c2[0], argmap(repo, c2[0], cd), {"algorithm": "blob.enc_content_algorithm", "parameters": "blob.enc_content_parameters", "cek": "cek", "value": "blob.enc_content"}, "decryption of the blob's content")
-    rdb = ReachingDefs(db)
-    dk = rdb.single_def("cek", c2[0])
-    chk.ob("O1", Site.of(db, c2[0]), dk is not None and dk.value is c1[0], "content key = the unwrapped CEK")
-    kk = rdb.single_def("kek", c1[0])
-    okk = kk is not None and kk.value is not None and unparse(kk.value) == "key.get_kek(blob.key_identifier)"
-    chk.ob("O4", Site.of(db, c1[0]), okk, "KEK derived from the blob's key identifier" if okk else "the KEK is not key.get_kek(blob.key_identifier)")
-    for r in [n for n in body_nodes(db.node) if isinstance(n, ast.Return)]:
-        ok = r.value is c2[0]
-        chk.ob("O3", Site.of(db, r), ok, "returns the verified plaintext" if ok else f"_decrypt_blob returns '{unparse(r.value)[:50]}' without authenticated decryption")
+    sd = Summary(db, ["blob", "key"])
+    if not sd.returning():
+        raise AnalysisError("_decrypt_blob: no returning path")
+    for ps in sd.returning():
+        c1, c2 = ps.calls("cek_decrypt"), ps.calls("content_decrypt")
+        if len(c1) != 1 or len(c2) != 1:
+            chk.ob("O3", Site.of(db, ps.exit_node, None if ps.exit_node is not None else "return"), False, "a returning path of _decrypt_blob does not unwrap the CEK and decrypt the content exactly once")
+            continue
+        a1 = {k: ps.text(v) for k, v in ev_args(repo, db, c1[0]).items()}
+        a2 = {k: ps.text(v) for k, v in ev_args(repo, db, c2[0]).items()}
+        expect(chk, "O1", db, t.cast(ast.Call, c1[0].node), a1, {"algorithm": "blob.enc_cek_algorithm", "parameters": "blob.enc_cek_parameters", "value": "blob.enc_cek"}, "unwrap of the blob's wrapped CEK")
+        expect(chk, "O1", db, t.cast(ast.Call, c2[0].node), a2, {"algorithm": "blob.enc_content_algorithm", "parameters": "blob.enc_content_parameters", "value": "blob.enc_content"}, "decryption of the blob's content")
+        okd = ps.key(ev_args(repo, db, c2[0]).get("cek")) == ps.key(c1[0].tree)
+        chk.ob("O1", Site.of(db, c2[0].node), okd, "content key = the unwrapped CEK")
+        okk = a1.get("kek") == "key.get_kek(blob.key_identifier)"
+        chk.ob("O4", Site.of(db, c1[0].node), okk, "KEK derived from the blob's key identifier" if okk else f"the KEK is {a1.get('kek')}, not key.get_kek(blob.key_identifier)")
+        ok = ps.key(ps.value) == ps.key(c2[0].tree)
+        chk.ob("O3", Site.of(db, ps.exit_node, None if ps.exit_node is not None else "return"), ok, "returns the verified plaintext" if ok else f"_decrypt_blob returns '{ps.text(ps.value)[:50]}' without authenticated decryption")
 
 
 def returns(repo: Repo, chk: Check) -> None:
     for q in ("_client.ncrypt_unprotect_secret", "_client.async_ncrypt_unprotect_secret"):
         f = repo.func(q)
         chk.analysed(f)
+        summ = Summary(f)  # public API: parameter names are interface
         n = 0
-        for r in [x for x in body_nodes(f.node) if isinstance(x, ast.Return)]:
+        blob = f"DPAPINGBlob.unpack({f.params[0]})"
+        for ps in summ.returning():
             n += 1
-            ok = isinstance(r.value, ast.Call) and unparse(r.value.func) == "_decrypt_blob" and [unparse(a) for a in r.value.args] == ["blob", "rk"]
-            chk.ob("O3", Site.of(f, r), ok, "returns _decrypt_blob(blob, rk)" if ok else f"{f.name} returns '{unparse(r.value)[:60]}': bytes that did not come out of the authenticated decryption of the parsed blob")
-        chk.ob("O3", Site.of(f, construct="single result path"), n >= 1, f"{n} return(s)")
-        rd = ReachingDefs(f)
-        rets = [x for x in body_nodes(f.node) if isinstance(x, ast.Return)]
-        b = rd.single_def("blob", rets[-1]) if rets else None
-        okb = b is not None and b.value is not None and unparse(b.value) == f"DPAPINGBlob.unpack({f.params[0]})"
-        chk.ob("O1", Site.of(f, construct="blob = DPAPINGBlob.unpack(data)"), okb, "the whole input is parsed as a DPAPI-NG blob")
+            v = ps.value
+            ok = isinstance(v, ast.Call) and unparse(v.func) == "_decrypt_blob"
+            a = {k: ps.text(x) for k, x in args_of(repo, f, v).items()} if ok else {}
+            ok = ok and a.get("blob") == blob
+            chk.ob("O3", Site.of(f, ps.exit_node, None if ps.exit_node is not None else "return"), bool(ok), "returns _decrypt_blob(parsed blob, key)" if ok else f"{f.name} returns '{ps.text(v)[:60]}': bytes that did not come out of the authenticated decryption of the parsed blob")
+            chk.ob("O1", Site.of(f, construct="blob = DPAPINGBlob.unpack(data)"), bool(ok), "the whole input is parsed as a DPAPI-NG blob")
+        chk.ob("O3", Site.of(f, construct="single result path"), n >= 1, f"{n} returning path(s)")
 
 
 def binding(repo: Repo, chk: Check) -> None:
     gk = repo.method("_gkdi.GroupKeyEnvelope", "get_kek")
     chk.analysed(gk)
-    g = build(gk.node)
-    txt = unparse(gk.node)
-    uses = {
-        "l0": "self.l0 != key_id.l0",
-        "l1/l2": "compute_l2_key(hash_algo, key_id.l1, key_id.l2, self)",
-        "key_info (nonce mode)": "key_id.key_info, 32)",
-        "key_info (public-key mode)": "public_key=key_id.key_info",
-        "flags": "if key_id.is_public_key:",
-    }
-    for what, frag in uses.items():
-        chk.ob("O4", Site.of(gk, construct=f"get_kek uses {what}"), frag in txt, f"{what} influences the KEK" if frag in txt else f"get_kek no longer uses the blob's {what}: that field can be altered without the decryption failing")
-    # the L0 mismatch raises
-    l0 = [n for n in body_nodes(gk.node) if isinstance(n, ast.If) and unparse(n.test) == "self.l0 != key_id.l0"]
-    chk.ob("O4", Site.of(gk, l0[0] if l0 else None, None if l0 else "L0 check"), bool(l0) and any(isinstance(x, ast.Raise) for x in l0[0].body), "an envelope for another L0 is rejected")
-    pk = [n for n in body_nodes(gk.node) if isinstance(n, ast.If) and unparse(n.test) == "self.is_public_key"]
-    chk.ob("O4", Site.of(gk, pk[0] if pk else None, None if pk else "public key envelope"), bool(pk) and any(isinstance(x, ast.Raise) for x in pk[0].body), "a public-key-only envelope cannot decrypt")
+    summ = Summary(gk, ["self", "key_id"])
+    modes = set()
+    for ps in summ.returning():
+        facts = ps.facts()
+        site = Site.of(gk, ps.exit_node, None if ps.exit_node is not None else "return")
+        ok0 = "key_id.l0 == self.l0" in facts
+        chk.ob("O4", Site.of(gk, ps.exit_node, "get_kek uses l0"), ok0, "an envelope for another L0 is rejected" if ok0 else "get_kek no longer compares the blob's l0 with the envelope's: that field can be altered without the decryption failing")
+        okp = "not (self.is_public_key)" in facts
+        chk.ob("O4", Site.of(gk, ps.exit_node, "public key envelope"), okp, "a public-key-only envelope cannot decrypt")
+        l2 = ps.calls("compute_l2_key")
+        la = {k: ps.text(v) for k, v in ev_args(repo, gk, l2[0]).items()} if len(l2) == 1 else {}
+        okl = la.get("request_l1") == "key_id.l1" and la.get("request_l2") == "key_id.l2" and la.get("rk") == "self"
+        chk.ob("O4", Site.of(gk, l2[0].node if l2 else None, "get_kek uses l1/l2"), okl, "l1/l2 influence the KEK" if okl else "get_kek no longer uses the blob's l1/l2: that field can be altered without the decryption failing")
+        pub = "key_id.is_public_key" in facts
+        nonpub = "not (key_id.is_public_key)" in facts
+        v = ps.value
+        if pub and isinstance(v, ast.Call) and unparse(v.func).endswith("compute_kek_from_public_key"):
+            modes.add("public")
+            a = args_of(repo, gk, v)
+            ok = ps.text(a.get("public_key")) == "key_id.key_info" and bool(l2) and ps.key(a.get("seed")) == ps.key(l2[0].tree)
+            chk.ob("O4", site, ok, "key_info (public-key mode) and the L2 key influence the KEK" if ok else "get_kek no longer uses the blob's key_info (public-key mode): that field can be altered without the decryption failing")
+        elif nonpub and isinstance(v, ast.Call) and unparse(v.func).endswith("kdf"):
+            modes.add("nonce")
+            a = args_of(repo, gk, v)
+            ok = ps.text(a.get("context")) == "key_id.key_info" and bool(l2) and ps.key(a.get("secret")) == ps.key(l2[0].tree)
+            chk.ob("O4", site, ok, "key_info (nonce mode) and the L2 key influence the KEK" if ok else "get_kek no longer uses the blob's key_info (nonce mode): that field can be altered without the decryption failing")
+        else:
+            chk.ob("O4", site, False, f"get_kek returns {ps.text(v)[:80]} on a path that has not decided key_id.is_public_key: the flags no longer select the derivation")
+    chk.ob("O4", Site.of(gk, construct="get_kek uses flags"), modes == {"public", "nonce"}, "flags select the derivation" if modes == {"public", "nonce"} else f"only {sorted(modes)} derivation(s) reachable: the blob's flags no longer influence the KEK")
     # root key id, position and SD select the seed material (cache lookup and RPC)
     for q, getter in (("_client.ncrypt_unprotect_secret", "_sync_get_key"), ("_client.async_ncrypt_unprotect_secret", "_async_get_key")):
         f = repo.func(q)
-        want = ["target_sd", "blob.key_identifier.root_key_identifier", "blob.key_identifier.l0", "blob.key_identifier.l1", "blob.key_identifier.l2"]
-        for name in ("cache._get_key", getter):
-            cs = calls(f, name)
-            a = [unparse(x) for x in cs[0].args] if len(cs) == 1 else []
-            a = a[1:] if name == getter else a
-            chk.ob("O4", Site.of(f, cs[0] if cs else None, None if cs else name), a[:5] == want, f"{name} selects the key by the blob's SD, root key id and position" if a[:5] == want else f"{name} is called with {a}")
-        rd = ReachingDefs(f)
-        cs = calls(f, "cache._get_key")
-        d = rd.single_def("target_sd", cs[0]) if cs else None
-        ok = d is not None and d.value is not None and unparse(d.value) == "blob.protection_descriptor.get_target_sd()"
-        chk.ob("O4", Site.of(f, construct="target SD from the blob"), ok, "the SD is built from the blob's protection descriptor")
-    del g
+        sf = Summary(f)
+        blob = f"DPAPINGBlob.unpack({f.params[0]})"
+        want = {"target_sd": f"{blob}.protection_descriptor.get_target_sd()", "root_key_id": f"{blob}.key_identifier.root_key_identifier", "l0": f"{blob}.key_identifier.l0", "l1": f"{blob}.key_identifier.l1", "l2": f"{blob}.key_identifier.l2"}
+        seen = {"_get_key": 0, getter: 0}
+        for ps in sf.returning():
+            for name in ("_get_key", getter):
+                for c in ps.calls(name):
+                    seen[name] += 1
+                    a = {k: ps.text(v) for k, v in ev_args(repo, f, c).items()}
+                    bad = {k: a.get(k) for k, w in want.items() if a.get(k) != w}
+                    chk.ob("O4", Site.of(f, c.node), not bad, f"{name} selects the key by the blob's SD, root key id and position" if not bad else f"{name} is called with {bad}: the key is not selected by the blob's own SD / root key id / position")
+        for name, cnt in seen.items():
+            if cnt == 0:
+                chk.ob("O4", Site.of(f, construct=name), False, f"no returning path calls {name}")
 
 
 def region_handlers(repo: Repo, chk: Check) -> None:
